@@ -2,7 +2,6 @@
 package c10
 
 import (
-	"time"
 	"github.com/csgura/fp"
 	"github.com/csgura/fp/as"
 	"github.com/csgura/fp/hlist"
@@ -12,6 +11,7 @@ import (
 	"github.com/csgura/fp/list"
 	"github.com/csgura/fp/ord"
 	"github.com/csgura/fp/seq"
+	"time"
 )
 
 func b2i(b bool) int {
@@ -345,7 +345,6 @@ func VH_c10_time_trans() {
 	transLaw(ord.Time, a, b, c, "Time")
 }
 
-
 // ---- ThenComparing with comparators whose Compare returns magnitudes other than 1, and right-nested chains
 
 func wideBy(k func(int) int) fp.Ord[int] {
@@ -386,7 +385,6 @@ func VH_c10_then_comparing_wide() {
 	zz.Assert(o.Eqv(a, b) == eqv, l+": Eqv needs all keys equal")
 	pairLaws(o, a, b, l)
 }
-
 
 // sequences that are views of one backing array (prefix vs longer prefix, shifted windows)
 func VH_c10_seq_aliased_views() {
